@@ -41,7 +41,8 @@ CONFIG = {
                  'reach:_checkEG:T.update(scc)',
                  'EG.trivial_scc_rejected', 'memo.hit',
                  'root:A.U', 'root:E.R', 'root:A.R', 'root:imply',
-                 'style:text', 'style:raw', 'style:ctls_obj', 'states:renamed'],
+                 'style:text', 'style:raw', 'style:ctls_obj', 'states:renamed',
+                 'family:nary_prefix'],
     'rule': ('cases = (Kripke structure, CTL state formula, presentation '
              'style); enumerated: isomorphism-class representatives of all '
              'total structures with <=3 states over {p,q} x all formulas of '
@@ -292,6 +293,31 @@ def deep_formulas():
     return out
 
 
+def nary_prefix_family(r, n):
+    """Pairs of different subformulas whose operand lists are prefixes of one
+    another (op(a,b) next to op(a,b,c)), combined in one formula: anything
+    that identifies a subformula by a lossy key (printed form, first
+    operands, hash) confuses them."""
+    p, q, r_ = ('ap', 'p'), ('ap', 'q'), ('ap', 'r')
+    base = [p, q, r_, ('not', p), ('E', ('X', q)), ('A', ('F', r_)),
+            ('not', r_), ('E', ('G', p))]
+    out = []
+    for _ in range(n):
+        op = r.choice(['and', 'or'])
+        a, b, c = r.sample(base, 3)
+        small, big = (op, a, b), (op, a, b, c)
+        if r.random() < 0.3:
+            big = (op, a, b, c, r.choice(base))
+        out.append(r.choice([
+            ('and', ('not', small), big), ('or', big, ('not', small)),
+            ('imply', small, big), ('imply', big, small),
+            ('E', ('U', small, big)), ('A', ('U', big, small)),
+            ('and', big, ('not', small)), ('E', ('R', big, small)),
+            ('or', ('A', ('G', small)), ('E', ('F', ('not', big)))),
+            ('and', ('E', ('X', small)), ('not', ('E', ('X', big))))]))
+    return out
+
+
 def run_case(nk, t, i, K=None):
     from pyModelChecking import CTL
     style = mcwork.STYLES[i % 4]
@@ -377,6 +403,15 @@ def run(ctx):
         _enum[0] = False
     # hostile shapes x (F1 + hostile formulas)
     deep = deep_formulas()
+    npf = nary_prefix_family(gen.rng(ctx.seed, PROP, 'npf'),
+                             300 if ctx.quick else 6000)
+    LOG.sig['family:nary_prefix'] += len(npf)
+    for k in range(len(npf) * (4 if ctx.quick else 8)):
+        nk = gen.random_structure(r, 6, atoms=('p', 'q', 'r'), nmin=3)
+        if not ctx.mine(k):
+            continue
+        run_case(rename_states(nk, k), npf[k % len(npf)], i)
+        i += 1
     for si, nk in enumerate(hostile_structures()):
         if not ctx.mine(si):
             continue
